@@ -1966,6 +1966,7 @@ const (
 	effOther
 	effLog
 	effValue
+	effPrecompile // a call of a precompiled contract (leaf frame that can fail by running out of gas)
 )
 const (
 	endOk = iota
@@ -2012,6 +2013,8 @@ func (sb *shapeBuilder) effect(e int) []Act {
 		return []Act{{Op: "log", Topics: []string{fmt.Sprintf("%d", sb.slot)}, Dlen: 0}}
 	case effValue:
 		return []Act{{Op: "call", Kind: 0, Gas: "0", To: &sb.funded, V: "1"}}
+	case effPrecompile:
+		return []Act{precompileCall(sb.g.r)}
 	}
 	return nil
 }
@@ -2143,7 +2146,7 @@ func pickW(r *vf.Rng, w []int) int {
 }
 
 func randomShape(r *vf.Rng, depth int) *shapeNode {
-	effW := []int{35, 35, 8, 11, 11}
+	effW := []int{35, 35, 8, 11, 11, 14}
 	n := &shapeNode{kind: pickW(r, []int{18, 22, 26, 8, 10, 16}), end: pickW(r, []int{35, 30, 20, 15, 6})}
 	if n.kind == kCreateFunded {
 		// mostly: the created contract self-destructs (in the init code, or later when called) and nothing sends it value
@@ -2157,8 +2160,8 @@ func randomShape(r *vf.Rng, depth int) *shapeNode {
 	if n.kind == kCallCode || n.kind == kDelegate {
 		// frames sharing the caller's storage: often nothing journalled before the first child,
 		// a rewrite of the slot right after it, and a failing end
-		first = []int{55, 25, 6, 7, 7}
-		effW = []int{25, 50, 8, 8, 9}
+		first = []int{55, 25, 6, 7, 7, 10}
+		effW = []int{25, 50, 8, 8, 9, 10}
 		n.end = pickW(r, []int{25, 35, 25, 15})
 	}
 	n.effects = append(n.effects, pickW(r, first))
@@ -2211,7 +2214,7 @@ func shapeCase(r *vf.Rng, first int, count int) *Case {
 		if first >= 0 {
 			e0, p = indexedShape((first + j) % shapeTotal)
 		} else {
-			e0 = pickW(r, []int{25, 60, 5, 5, 5})
+			e0 = pickW(r, []int{25, 60, 5, 5, 5, 10})
 			p = randomShape(r, 2)
 			if r.Chance(25) {
 				stor = append(stor, [2]string{fmt.Sprintf("%d", j), "7"})
@@ -2220,7 +2223,7 @@ func shapeCase(r *vf.Rng, first int, count int) *Case {
 		acts = append(acts, sb.effect(e0)...)
 		acts = append(acts, sb.build(p, 2, root)...)
 		if first < 0 && r.Chance(30) {
-			acts = append(acts, sb.effect(pickW(r, []int{0, 60, 20, 10, 10}))...)
+			acts = append(acts, sb.effect(pickW(r, []int{0, 60, 20, 10, 10, 15}))...)
 		}
 		nextAddr = sb.next
 	}
@@ -2367,6 +2370,51 @@ func randomHistory(r *vf.Rng) []HOp {
 		ops = append(ops, HOp{Op: "revert"})
 	}
 	return ops
+}
+
+// precompileCase: precompiled contracts as callees of a contract (all four call kinds, value 0
+// and > 0, gas around the required gas) and as recipients of top-level transactions.
+func precompileCase(r *vf.Rng) *Case {
+	g := &gen{r: r, c: &Case{}, cp: &compiler{codes: map[int]*Code{}}, nextId: 1}
+	c := g.c
+	origin := Addr{K: "b", N: 0}
+	root := Addr{K: "b", N: 1}
+	c.Origin = origin
+	var acts []Act
+	for k := 2 + r.Intn(6); k > 0; k-- {
+		acts = append(acts, precompileCall(r))
+		if r.Chance(30) {
+			acts = append(acts, Act{Op: "sstore", K: "0", V: fmt.Sprintf("%d", 1+r.Intn(5))})
+		}
+	}
+	if r.Chance(10) {
+		acts = append(acts, Act{Op: []string{"revert", "invalid"}[r.Intn(2)]})
+	}
+	c.Accts = append(c.Accts, Acct{A: origin, Nonce: 1, Bal: "1000000000000000000"}, Acct{A: root, Nonce: 1, Bal: "100", Code: g.addCode(acts, 0)})
+	if r.Chance(25) { // a precompile address that already holds value
+		ns := precompiles()
+		c.Accts = append(c.Accts, Acct{A: Addr{K: "p", N: uint64(ns[r.Intn(len(ns))])}, Nonce: 0, Bal: "4"})
+	}
+	c.Multi = true
+	c.Txs = append(c.Txs, Tx{To: root, Gas: 5000000, Value: "0"})
+	ns := precompiles()
+	for k := 1 + r.Intn(3); k > 0; k-- {
+		n := ns[r.Intn(len(ns))]
+		need := vm.PrecompiledContractsByzantium[common.BytesToAddress([]byte{byte(n)})].RequiredGas(nil)
+		gs := []uint64{0, 1, need - 1, need, need + 1, 100000}
+		if need == 0 {
+			gs = []uint64{0, 1, 100000}
+		}
+		c.Txs = append(c.Txs, Tx{To: Addr{K: "p", N: uint64(n)}, Gas: gs[r.Intn(len(gs))], Value: []string{"0", "1", "5"}[r.Intn(3)]})
+	}
+	if r.Bool() {
+		c.Txs = append(c.Txs, Tx{To: root, Gas: 5000000, Value: "0"})
+	}
+	c.To = root
+	c.Value = "0"
+	c.Gas = 5000000
+	c.Comment = "precompile"
+	return c
 }
 
 // deepCase: a contract that calls itself until the depth limit (1024) stops it.
@@ -2566,6 +2614,8 @@ func genCmd(seed uint64, n int, outDir, corpusDir, tier string) {
 				c = suicideCase(r)
 			case x < 73:
 				c = blockCase(r)
+			case x < 81:
+				c = precompileCase(r)
 			default:
 				c = newCase(r)
 			}
@@ -2628,7 +2678,7 @@ func genCmd(seed uint64, n int, outDir, corpusDir, tier string) {
 	vf.WriteFile(filepath.Join(outDir, "Cases.v"), sb.String())
 	res.Cases = count
 	res.Distinct = len(distinct)
-	res.Rule = "random multi-contract programs (2-5 contracts + library of runtime/init codes, actions SSTORE/LOG/CALL/CALLCODE/DELEGATECALL/STATICCALL/CREATE/CREATE2/SELFDESTRUCT/REVERT/INVALID, call targets incl. missing, funded and CREATE/CREATE2-derived addresses, boundary gas arguments and values), compiled to byte code and run by the real EVM on a committed StateDB; gas allotment = plenty, or uniform below the gas used with plenty (out-of-gas at a random point), or a boundary; blocks of 1-6 transactions on one StateDB with Finalise(true) in between (a phased contract writing slots from small per-slot pools directly and through nested frames on its storage; any other case repeated two or three times); call-tree shapes (per node: kind CALL/CALLCODE/DELEGATECALL/STATICCALL/CREATE, ending ok/revert/invalid/out-of-gas, effects none/SSTORE same slot/SSTORE other slot/LOG/value before and after each child, nothing else emitted; random of depth <= 4 in every run, the 13500 three-level shapes enumerated over the 50 shards of the thorough tier); StateDB-level Snapshot/SetState/AddLog/AddBalance/Revert histories against plain copies (oracle only); scenario families: call chains, static-context offenders, CREATE endings, repeated SELFDESTRUCT of the same contract with value arriving in between; one self-recursive case to the depth limit per shard; a case = program + transaction + observed status, gas left, all accounts, logs, refund, burnt value; non-trivial = executed at least one call/create opcode; distinct by full case text"
+	res.Rule = "random multi-contract programs (2-5 contracts + library of runtime/init codes, actions SSTORE/LOG/CALL/CALLCODE/DELEGATECALL/STATICCALL/CREATE/CREATE2/SELFDESTRUCT/REVERT/INVALID, call targets incl. missing, funded and CREATE/CREATE2-derived addresses, boundary gas arguments and values), compiled to byte code and run by the real EVM on a committed StateDB; gas allotment = plenty, or uniform below the gas used with plenty (out-of-gas at a random point), or a boundary; blocks of 1-6 transactions on one StateDB with Finalise(true) in between (a phased contract writing slots from small per-slot pools directly and through nested frames on its storage; any other case repeated two or three times); call-tree shapes (per node: kind CALL/CALLCODE/DELEGATECALL/STATICCALL/CREATE, ending ok/revert/invalid/out-of-gas, effects none/SSTORE same slot/SSTORE other slot/LOG/value before and after each child, nothing else emitted; random of depth <= 4 in every run, the 13500 three-level shapes enumerated over the 50 shards of the thorough tier); StateDB-level Snapshot/SetState/AddLog/AddBalance/Revert histories against plain copies (oracle only); precompiled contracts (the active set read from the vm package) as callees by all four call kinds and as top-level recipients, value 0 and > 0, gas around the required gas, empty input; scenario families: call chains, static-context offenders, CREATE endings, repeated SELFDESTRUCT of the same contract with value arriving in between; one self-recursive case to the depth limit per shard; a case = program + transaction + observed status, gas left, all accounts, logs, refund, burnt value; non-trivial = executed at least one call/create opcode; distinct by full case text"
 	res.Write(filepath.Join(outDir, "result.json"))
 }
 
@@ -2680,9 +2730,65 @@ func tableCmd(out string) {
 		f("p_selfdestruct", params.SelfdestructGas), f("p_createbysd", params.CreateBySelfdestructGas), f("p_suicideref", params.SuicideRefundGas),
 		f("p_memgas", params.MemoryGas), f("p_quad", params.QuadCoeffDiv),
 		f("p_resurrect", b(probeResurrect())),
+		f("p_pregas", precompileTable()),
 	}
 	sb.WriteString("Definition real_gas : gastab := {|\n" + strings.Join(fields, ";\n") + " |}.\n")
 	vf.WriteIfChanged(out, sb.String())
+}
+
+// precompileTable: the active precompiled contracts (the set run() consults) with their
+// required gas on the empty input, keyed by the model name of the address.
+func precompileTable() string {
+	var sb strings.Builder
+	sb.WriteString("fun n => match n with ")
+	var ns []int
+	for a := range vm.PrecompiledContractsByzantium {
+		b := a.Big()
+		if !b.IsInt64() || b.Int64() <= 0 || b.Int64() > 255 {
+			fmt.Fprintln(os.Stderr, "c16 table: a precompile outside 1..255; the harness names have no room for it")
+			os.Exit(3)
+		}
+		ns = append(ns, int(b.Int64()))
+	}
+	sort.Ints(ns)
+	for _, n := range ns {
+		p := vm.PrecompiledContractsByzantium[common.BytesToAddress([]byte{byte(n)})]
+		sb.WriteString(fmt.Sprintf("| %d => Some %d ", 1000000+n, p.RequiredGas(nil)))
+	}
+	sb.WriteString("| _ => None end")
+	return sb.String()
+}
+
+func precompiles() []int {
+	var ns []int
+	for a := range vm.PrecompiledContractsByzantium {
+		ns = append(ns, int(a.Big().Int64()))
+	}
+	sort.Ints(ns)
+	return ns
+}
+
+// precompileCall: CALL / CALLCODE / DELEGATECALL / STATICCALL of a precompiled contract with the
+// empty input, value 0 or > 0, gas steered around what the precompile requires.
+func precompileCall(r *vf.Rng) Act {
+	ns := precompiles()
+	n := ns[r.Intn(len(ns))]
+	need := vm.PrecompiledContractsByzantium[common.BytesToAddress([]byte{byte(n)})].RequiredGas(nil)
+	a := Act{Op: "call", Kind: pickW(r, []int{55, 15, 15, 15}), To: &Addr{K: "p", N: uint64(n)}, V: "0", Req: r.Chance(8)}
+	stip := uint64(0)
+	if a.Kind < 2 && r.Chance(60) {
+		a.V = []string{"1", "2", "3"}[r.Intn(3)]
+		stip = params.CallStipend
+	}
+	sub := func(x, y uint64) uint64 {
+		if x > y {
+			return x - y
+		}
+		return 1
+	}
+	gs := []uint64{1, 699, sub(need, stip+1), sub(need, stip), sub(need, stip) + 1, sub(need, 1), need, need + 1, 50000, 300000}
+	a.Gas = fmt.Sprintf("%d", gs[r.Intn(len(gs))])
+	return a
 }
 
 // probeResurrect runs CreateAccount over an object that Finalise(true) has deleted while
